@@ -284,6 +284,13 @@ impl Generator
 	{
 		if let Some(&constant) = self.constants.get(&name.resolution_id)
 		{
+			// The initializer may not have been folded into an integer
+			// (for example a division by zero, which is poison).
+			let is_integer = unsafe { !LLVMIsAConstantInt(constant).is_null() };
+			if !is_integer
+			{
+				return None;
+			}
 			let v: u64 = unsafe { LLVMConstIntGetZExtValue(constant) };
 			v.try_into().ok()
 		}
